@@ -9,8 +9,8 @@ Definition b2z (b : bool) : Z := if b then 1%Z else 0%Z.
 
 (* ---- render family: S on the digests of R renderings.  [attributed]: the harness attributed the
    first difference to a site the coverage table refutes (then the model predicts a difference). *)
-Definition render_case (id : Z) (obs : list rendering) (maxmap : Z) (attributed : bool) : list Z :=
-  let ok := spec_ok obs in
+Definition render_case (id : Z) (obs : list rendering) (maxmap : Z) (attributed : bool) (mutated : nat) : list Z :=
+  let ok := spec_ok obs && Nat.eqb mutated 0 in
   [id; b2z (ok || attributed); b2z ok; b2z (Z.leb 2 maxmap && Nat.leb 2 (List.length obs)); Z.of_nat (List.length obs)].
 
 (* ---- unit family *)
@@ -61,5 +61,15 @@ Definition unit_case (id : Z) (kind : nat) (det fixed : bool) (l : list (string 
 (* the same with the renderings given as indices into the table of distinct renderings (most of
    the 180 renderings of a case are equal; this only keeps the generated file small) *)
 Definition render_case_ix (id : Z) (table : list (list (string * string))) (seq : list (nat * bool))
-  (maxmap : Z) (attributed : bool) : list Z :=
-  render_case id (map (fun ib => (nth (fst ib) table [("<bad index>", "")], snd ib)) seq) maxmap attributed.
+  (maxmap : Z) (attributed : bool) (mutated : nat) : list Z :=
+  render_case id (map (fun ib => (nth (fst ib) table [("<bad index>", "")], snd ib)) seq) maxmap attributed mutated.
+
+(* ---- history family: [fresh] are the files a fresh configurator renders for input B from pristine
+   objects; [others] are the files rendered for B by configurators that rendered input A before (and B
+   again), in every process, and the fresh renderings of the other processes.  [mutated]: number of
+   input objects found modified after a call of the generator.  The model (render_history_deepcopy,
+   history_independent) predicts equality, so agreement and specification coincide. *)
+Definition history_case (id : Z) (fresh : list (string * string)) (others : list (list (string * string)))
+  (mutated : nat) (nontrivial : bool) : list Z :=
+  let ok := forallb (fun o => history_ok o fresh mutated) others in
+  [id; b2z ok; b2z ok; b2z nontrivial; Z.of_nat (List.length others)].
